@@ -2505,6 +2505,9 @@ class _Tn(Sym):
     def __getitem__(self, k):
         return _Tn(self._name + "[..]", self.shape)
 
+    def __setitem__(self, k, v):
+        pass
+
     def _a(self, o):
         return _Tn("arith", self.shape)
 
@@ -2574,13 +2577,15 @@ def _tdvp_run(src, qual, solver, imag, to_right, ofs=None, jw=False, midpoint=Fa
                 super().__init__(f"H#{n_hop[0]}[{nops} site operator(s)]")
 
             def __call__(self, y):
+                if isinstance(y, _Tn):
+                    return _Tn(f"{self._name} y")           # a tensor without content (global schemes): only the bookkeeping of the run is read
                 if not isinstance(y, _Vec) or list(y.terms) != ["1"]:
                     raise AnalysisError(f"effective operator applied to {y!r}")
                 return _Vec({self._name: y.terms["1"]})
 
         def _cfg(name):
             c = Sym(name, ivp_solver=solver, ivp_rtol=1e-5, ivp_atol=1e-8, stat=None, adaptive=midpoint, tdvp_cmf_midpoint=midpoint, tdvp_cmf_c_trapz=False,
-                    force_ovlp=False, reg_epsilon=1e-10, method="method")
+                    force_ovlp=False, reg_epsilon=1e-10, method="tdvp_mu_vmf", vmf_auto_switch=False)
             c.__dict__["copy"] = lambda c=c: _cfg_copy(c)
             return c
 
@@ -2628,6 +2633,9 @@ def _tdvp_run(src, qual, solver, imag, to_right, ofs=None, jw=False, midpoint=Fa
             def __setitem__(self, k, v):
                 events.append(("site", self._name, k % 4 if isinstance(k, int) else k, getattr(v, "_name", repr(v))))
 
+            def __iter__(self):
+                return iter([_Tn(f"site{k}") for k in range(self.site_num)])
+
             def copy(self):
                 c = St("copy")
                 events.append(("copy", self._name, c._name))
@@ -2639,6 +2647,12 @@ def _tdvp_run(src, qual, solver, imag, to_right, ofs=None, jw=False, midpoint=Fa
                 return self
 
             ensure_right_canonical = ensure_left_canonical
+
+            def canonicalise(self, *a, **k):
+                return self
+
+            def move_qnidx(self, k):
+                self.__dict__["qnidx"] = k
 
             def evolve(self, mpo, dt, *a, **k):
                 """re-entry into the dispatcher (midpoint environment of the constant-mean-field scheme)"""
@@ -2671,7 +2685,7 @@ def _tdvp_run(src, qual, solver, imag, to_right, ofs=None, jw=False, midpoint=Fa
             return _Tn("evolved"), 7
 
         def solve_ivp(fn, span, y0, *a, **k):
-            out = fn(_Sc(sp.Symbol("t")), _Vec())
+            out = fn(_Sc(sp.Symbol("t")), _Tn("y", (60,)) if qual.endswith("_vmf") else _Vec())
             calls.append(("ode", out, _Sc.of(span[1]) - _Sc.of(span[0])))
             return Sym("sol", y=_Tn("evolved"), nfev=7, t=[0, 1])
 
@@ -2681,6 +2695,8 @@ def _tdvp_run(src, qual, solver, imag, to_right, ofs=None, jw=False, midpoint=Fa
 
             def f(t, y):
                 v = hop(y)
+                if isinstance(v, _Tn):
+                    return v
                 if not islast:
                     v = _Vec({f"P {k_}": c_ for k_, c_ in v.terms.items()})
                 return v / c
@@ -2703,8 +2719,9 @@ def _tdvp_run(src, qual, solver, imag, to_right, ofs=None, jw=False, midpoint=Fa
             events.append(("svd", k_))
             u, v = _Tn(f"u#{k_}", (6, 4)), _Tn(f"v#{k_}", (5, 4))
             return (u, f"qnl#{k_}", v, f"qnr#{k_}") if QR else (u, _Tn("s", (4,)), f"qnl#{k_}", v, _Tn("s", (4,)), f"qnr#{k_}")
-        npx = OpenSym("np", make=lambda t: _Tn(t), iscomplex=lambda x: imag)
-        it = SymInterp(src, resolve, {"np": npx, "xp": npx, "Environ": lambda *a, **k: env_, "hop_expr": lambda l, r, ops, shape, *a, **k: HOp(len(ops)), "expm_krylov": expm_krylov, "solve_ivp": solve_ivp,
+        npx = OpenSym("np", make=lambda t: _Tn(t), iscomplex=lambda x: imag, sum=lambda x, *a, **k: 6, empty_like=lambda y: _Tn("hop_y", (60,)))
+        it = SymInterp(src, resolve, {"np": npx, "xp": npx, "Mpo": "Mpo", "isinstance": lambda x, t: t == "Mpo", "callable": callable, "get_qn_mask": lambda *a, **k: _Tn("mask"),
+                                      "cvec2cmat": lambda *a, **k: _Tn("site from vector"), "EvolveMethod": Sym("EvolveMethod", tdvp_mu_vmf="tdvp_mu_vmf", tdvp_vmf="tdvp_vmf"), "Environ": lambda *a, **k: env_, "hop_expr": lambda l, r, ops, shape, *a, **k: HOp(len(ops)), "expm_krylov": expm_krylov, "solve_ivp": solve_ivp,
                                       "asxp": lambda x: x, "asnumpy": lambda x: x, "logger": Blob("logger"), "stats": Sym("stats", describe=lambda x: "stats"), "tensordot": lambda a, b, **k: _Tn("two-site", (2, 3, 3, 5)),
                                       "svd_qn": Sym("svd_qn", svd_qn=svd_stub),
                                       "integrand_func_factory": integrand_func_factory, "ones": lambda *a, **k: _Tn("ones"), "transferMat": lambda *a, **k: _Tn("S"), "_mu_regularize": lambda s_, **k: _Tn("s reg"),
@@ -2773,7 +2790,7 @@ def tdvp_solver_rule(chk, src, rule_sibling, rule_herm, quals=("Mps._evolve_tdvp
     return n
 
 
-def tdvp_bookkeeping_rule(chk, src, rule_labels=None, rule_fresh=None, rule_ofs=None, rule_input=None, quals=("Mps._evolve_tdvp_ps", "Mps._evolve_tdvp_ps2", "Mps._evolve_tdvp_mu_cmf")):
+def tdvp_bookkeeping_rule(chk, src, rule_labels=None, rule_fresh=None, rule_ofs=None, rule_input=None, quals=("Mps._evolve_tdvp_ps", "Mps._evolve_tdvp_ps2", "Mps._evolve_tdvp_mu_cmf", "Mps._evolve_tdvp_mu_vmf")):
     """the same abstract runs of the tangent-space schemes, read for their bookkeeping events.
     labels: whenever an isometric factor of the k-th blocked decomposition is stored as site s of a state (the factor itself up to transposition / regrouping, not a
     product with something else), the label list of that factor is stored on the bond the new index lives on (u: bond s+1, v: bond s) of the same state and its label
